@@ -91,10 +91,11 @@ def run_case(case):
         return run_golden(case)
     h = jhash(case)
     try:
-        records = [recs.build_record(r) for r in case["records"]]
+        specs = streamspace.expand(case)
+        records = [recs.build_record(r) for r in specs]
     except Exception as e:  # noqa: BLE001
         return {"ev": 1, "h": h, "nt": False, "out": "rejected:" + type(e).__name__}
-    XFAIL[0] = tuple(i for i, r in enumerate(case["records"]) if r.get("xfail"))
+    XFAIL[0] = tuple(i for i, r in enumerate(specs) if r.get("xfail"))
     expected = obs_list([r for i, r in enumerate(records) if i not in XFAIL[0]])
     viol = []
     outs = []
